@@ -1,5 +1,5 @@
 /-
-`IsSpaceOrTab` OF THE GO SOURCE (klog/parser/txt/util.go, translated on every run: Gen/GoTxt.lean).
+`IsSpaceOrTab` AND `SubRune` OF THE GO SOURCE (klog/parser/txt/util.go, translated on every run: Gen/GoTxt.lean).
 `IsSpaceOrTab` decides where the headline's date ends and where an entry's value ends: the blank that the grammar of the
 specification demands there is U+0020 or U+0009 and nothing else (in particular no other Unicode space separator: seeded
 change y-a1) — it is the model's `isSpTab` (Model/Record.lean).  Property theorems only.
@@ -25,6 +25,40 @@ theorem isSpaceOrTab_char (c : Char) : GoTxt.IsSpaceOrTab (c.toNat : Int) = .ok 
   rw [isSpaceOrTab_eq]
   show Except.ok (((c.toNat : Int) == ((' ' : Char).toNat : Int)) || ((c.toNat : Int) == (('\t' : Char).toNat : Int))) = _
   rw [h32, h9]; rfl
+
+set_option linter.unusedSimpArgs false in
+private theorem add_int (a b : Int) (h : inInt64 (a + b)) : add a b = a + b := by
+  show wrap (a + b) = a + b
+  exact wrap_id h
+private theorem sub_int (a b : Int) (h : inInt64 (a - b)) : sub a b = a - b := by
+  show wrap (a - b) = a - b
+  exact wrap_id h
+
+/-- `SubRune(text, start, length)` for non-negative arguments below 2⁶²: `nil` when `start` is not inside the text, otherwise
+the runes from `start`, at most `length` of them (what `Parseable.Peek` and `PeekUntil` read the line with) -/
+theorem subRune_eq (text : List Int) (s l n : Int) (hn : n = (text.length : Int)) (h1 : n < 4611686018427387904)
+    (h2 : 0 ≤ s ∧ s < 4611686018427387904) (h3 : 0 ≤ l ∧ l < 4611686018427387904) :
+    GoTxt.SubRune text s l =
+      .ok (if s ≥ n then none else some ((text.drop s.toNat).take l.toNat)) := by
+  unfold GoTxt.SubRune
+  have hlen : len text = n := by simp [len, hn]
+  by_cases hs : s ≥ n
+  · simp [hlen, ge, hs, pure, Except.pure, bind, Except.bind]
+  · have hs' : ¬ (n ≤ s) := by omega
+    have ha : add s l = s + l := add_int s l (by unfold inInt64; omega)
+    have hb : sub n s = n - s := sub_int n s (by unfold inInt64; omega)
+    by_cases hg : s + l > n
+    · have ha2 : add s (n - s) = n := by rw [add_int s (n - s) (by unfold inInt64; omega)]; omega
+      simp [hlen, ge, gt, hs, hs', ha, hb, hg, ha2, slice, pure, Except.pure, bind, Except.bind]
+      rw [if_pos (by omega)]
+      have e1 : (n - s).toNat = text.length - s.toNat := by omega
+      have e2 : (List.drop s.toNat text).length ≤ l.toNat := by simp; omega
+      simp only [e1]
+      rw [List.take_of_length_le (by simp), List.take_of_length_le e2]
+    · simp [hlen, ge, gt, hs, hs', ha, hg, slice, pure, Except.pure, bind, Except.bind]
+      rw [if_pos (by omega)]
+      have e1 : (s + l - s).toNat = l.toNat := by omega
+      simp only [e1]
 
 example : (GoTxt.IsSpaceOrTab 0xA0).toOption = some false ∧ (GoTxt.IsSpaceOrTab 0x3000).toOption = some false ∧
     (GoTxt.IsSpaceOrTab 9).toOption = some true := by decide
